@@ -26,12 +26,13 @@ import (
 func GenLeaderPlan(seed uint64) *Plan {
 	g := newGen(seed, 16)
 	p := &Plan{Version: 1, Property: "C16", Seed: seed, Inner: g.u64(), World: "leader", UntilMs: 1, MaxSteps: 100000}
-	p.N = pick(g, 4, 4, 7, 7, 7, 10, 13)
-	p.Leader = pick(g, "carousel", "carousel", "reputation")
+	p.N = pick(g, 4, 7, 7, 7, 10, 10, 13)
+	p.Leader = pick(g, "carousel", "reputation")
 	p.Ruleset = pick(g, "chainedhotstuff", "fasthotstuff")
-	p.Knobs = map[string]int{"blocks": g.rng(3, 40), "gapPct": pick(g, 0, 20, 50), "queries": g.rng(1, 4), "missPct": pick(g, 0, 0, 10), "extraSigners": g.intn(3)}
+	p.Knobs = map[string]int{"blocks": g.rng(3, 60), "gapPct": pick(g, 0, 20, 50), "queries": g.rng(1, 4), "missPct": pick(g, 0, 0, 10), "extraSigners": g.intn(3)}
 	// a replica that catches up commits several blocks at once: the head moves over them with no query in between
 	p.Knobs["skipPct"] = pick(g, 0, 30, 60)
+	p.Knobs["replicas"] = pick(g, 2, 4, 4)
 	if g.p(0.3) {
 		// the stateless schemes, "for every view number and cluster size": any n, windows of consecutive views
 		// around seeded bases that include the corners of the 64-bit view space
@@ -255,10 +256,28 @@ func runLeaderWorld(t *testing.T, p *Plan, want []string, logw io.Writer) *Resul
 		defer func() { panicked = recover() }()
 		return lr.GetLeader(v), nil
 	}
+	// (plans with the knob "replicas": two more instances, so that a result that depends on anything but the history
+	// has more chances to show)
+	var extra []leaderrotation.LeaderRotation
+	var extraVS []*protocol.ViewStates
+	var extraIDs []hotstuff.ID
+	if k("replicas") > 2 && n >= 4 {
+		for _, id := range []hotstuff.ID{2, hotstuff.ID((n + 1) / 2)} {
+			x, vx, err := mk(id)
+			if err != nil {
+				res.Harness = err.Error()
+				return res
+			}
+			extra, extraVS, extraIDs = append(extra, x), append(extraVS, vx), append(extraIDs, id)
+		}
+	}
 	for i := 1; i < len(chain) && res.Violation == nil; i++ {
 		head := chain[i]
 		va.UpdateCommittedBlock(head.b)
 		vb.UpdateCommittedBlock(head.b)
+		for _, vx := range extraVS {
+			vx.UpdateCommittedBlock(head.b)
+		}
 		if sp := k("skipPct"); sp > 0 && i+1 < len(chain) && g.intn(100) < sp {
 			st.Faults["commit-head-moved-without-query"]++
 			continue
@@ -285,6 +304,17 @@ func runLeaderWorld(t *testing.T, p *Plan, want []string, logw io.Writer) *Resul
 			la, pa := ask(a, v)
 			lb, pb := ask(b, v)
 			logf("head=v%d proposer=%d query view %d -> %d / %d", head.b.View(), head.b.Proposer(), v, la, lb)
+			// further replicas with the same history: they must say the same as the first
+			for xi, x := range extra {
+				lx, px := ask(x, v)
+				if px != nil && pa == nil {
+					pa = px
+				}
+				if lx != la && lb == la {
+					lb = lx
+					logf("replica %d says %d", extraIDs[xi], lx)
+				}
+			}
 			if pa != nil || pb != nil {
 				viol("C16/"+p.Leader+"/panic", "GetLeader(%d) panicked with committed head of view %d: %v %v", v, head.b.View(), pa, pb)
 				break
